@@ -56,7 +56,7 @@ func (r *Runner) monBln(s *Step, rep *Reply) {
 	allowed := r.blnAllowed()
 	isolated := SetOf(m.Isolated)
 	name := func(b *balloons.VerifBalloon) string { return fmt.Sprintf("%s[%d]", b.Def, b.Instance) }
-	sigOp := s.Op
+	sigOp := r.opSig(s)
 	if r.LastFailed {
 		sigOp += "-failed"
 	}
